@@ -40,7 +40,11 @@ type HistConfig struct {
 	PCwd           float64 // gengo is started in a package directory, not in the module root
 	PClock         float64 // an edit whose file clock is kept, far in the past or in the future; same-size edit motif
 	PProtect       float64 // generated files of a package become read-only, or get clocks from the future / the past
-	Cgo            bool    // one package gets a file that imports "C"
+	// Featured: a motif that this history contains for sure (at a drawn position, after a first run), however
+	// the dice fall: "fail-after-edit" "clock" "type-error" "retry" "reuse" "protect" "linkout" "stale" "sumops"
+	// (simulations rotate through the motifs their configuration enables)
+	Featured string
+	Cgo      bool // one package gets a file that imports "C"
 	PReuse         float64 // two runs on one executor (loaded once): the second with other generators or a muted one
 	IllTyped       bool    // one package declares a type on an undefined identifier
 	PTypeError     float64 // motif: an edit, a type error planted in a package it imports, a run in which a generator panics, the repair, a run
@@ -318,6 +322,9 @@ func DrawHistory(r *Rng, cfg HistConfig) (*Scenario, *histWorld) {
 	if cfg.PRetag > 0 {
 		cfg.PMidEdit = 0 // (mid-run edits carry file contents rendered from the initial spec)
 	}
+	if cfg.Featured == "fail-after-edit" && cfg.PUniform > 0 {
+		cfg.PUniform = 1 // (what a failed run leaves behind shows in the final state of a history with one set of generators)
+	}
 	if r.P(cfg.PUniform) {
 		sc.UniformGens = true
 		cfg.PSubsetGens, cfg.PMute, cfg.PGlobals, cfg.PStale = 0, 0, 0, 0
@@ -327,7 +334,21 @@ func DrawHistory(r *Rng, cfg HistConfig) (*Scenario, *histWorld) {
 	planted := map[string]bool{}
 	broken := false
 	faulty := 0
+	featuredAt := -1
+	if cfg.Featured != "" {
+		featuredAt = r.Range(1, max(1, n-1))
+	}
 	for len(ops) < n {
+		force := ""
+		if featuredAt >= 0 && len(ops) >= featuredAt && !broken {
+			force, featuredAt = cfg.Featured, -1
+		}
+		hit := func(motif string, p float64) bool {
+			if force != "" {
+				return force == motif
+			}
+			return r.P(p)
+		}
 		if broken {
 			// a run that must fail at load and change nothing, then repair
 			ops = append(ops, Op{Kind: "run", Run: w.drawRun(r, cfg)})
@@ -336,13 +357,13 @@ func DrawHistory(r *Rng, cfg HistConfig) (*Scenario, *histWorld) {
 			continue
 		}
 		switch {
-		case r.P(cfg.PRetag):
+		case hit("retag", cfg.PRetag):
 			// a declaration's tags are edited in place: a type enabled so far is disabled (or the other way
 			// round); the next run - fresh process or not - must follow the new tags
 			if op, ok := w.drawRetag(r); ok {
 				ops = append(ops, op)
 			}
-		case r.P(cfg.PFailAfterEdit) && faulty < 2:
+		case hit("fail-after-edit", cfg.PFailAfterEdit) && faulty < 2:
 			// motif: edit a package, then an All run in which a generator fails (first callback of a
 			// scripted generator): the failed run must not mark the edited package as done
 			pi := r.Intn(len(m.Pkgs))
@@ -360,7 +381,7 @@ func DrawHistory(r *Rng, cfg HistConfig) (*Scenario, *histWorld) {
 			}
 			faulty++
 			ops = append(ops, Op{Kind: "run", Run: run})
-		case r.P(cfg.PEdit):
+		case hit("edit", cfg.PEdit):
 			pi := r.Intn(len(m.Pkgs))
 			w.edits++
 			switch r.Intn(4) {
@@ -382,20 +403,20 @@ func DrawHistory(r *Rng, cfg HistConfig) (*Scenario, *histWorld) {
 					ops = append(ops, Op{Kind: "delete", Path: p})
 				}
 			}
-		case r.P(cfg.PStale):
+		case hit("stale", cfg.PStale):
 			pi := r.Intn(len(m.Pkgs))
 			w.edits++
 			name := Pick(r, []string{"old", "gone", "defaulter"})
 			ops = append(ops, Op{Kind: "edit", Note: "stale output", Path: w.pkgFile(pi, base+"."+name+".go"),
 				Content: fmt.Sprintf("package %s\n\nvar Stale_%s_%d = 1\n", m.Pkgs[pi].Name, name, w.edits)})
-		case r.P(cfg.PSumOps):
+		case hit("sumops", cfg.PSumOps):
 			if r.P(0.3) {
 				ops = append(ops, Op{Kind: "delsum"})
 			} else {
 				ops = append(ops, Op{Kind: "corruptsum", K: r.Intn(64),
 					How: Pick(r, []string{"drop-line", "alter-hash", "truncate", "garbage", "swap-hashes", "crlf", "dup-line-stale", "empty"})})
 			}
-		case r.P(cfg.PClock / 2):
+		case hit("clock", cfg.PClock/2):
 			// motif: two edits of one file that differ in content only - same size, same modification time -
 			// with a full run in between (whatever remembers files by size and time sees no change)
 			pi := r.Intn(len(m.Pkgs))
@@ -405,7 +426,7 @@ func DrawHistory(r *Rng, cfg HistConfig) (*Scenario, *histWorld) {
 			again := *mid
 			again.Fresh = false
 			ops = append(ops, Op{Kind: "touch", K: pi, Path: f, SameSize: true}, Op{Kind: "run", Run: mid}, Op{Kind: "run", Run: &again}, Op{Kind: "touch", K: pi, Path: f, SameSize: true, MTime: "keep"})
-		case r.P(cfg.PTypeError) && faulty < 2:
+		case hit("type-error", cfg.PTypeError) && faulty < 2:
 			// package P is edited, a package Q that P imports gets a type error, an All run in which a generator
 			// panics (or fails) in P, Q is repaired, an All run: P was never generated from its edited state
 			var pairs [][2]int
@@ -443,7 +464,7 @@ func DrawHistory(r *Rng, cfg HistConfig) (*Scenario, *histWorld) {
 				Op{Kind: "touch", K: pq[1], Path: m.Pkgs[pq[1]].Files[0].Name, Note: "repaired"},
 				Op{Kind: "run", Run: &good})
 			faulty++
-		case r.P(cfg.PReuse/3) && len(m.Pkgs) >= 2 && faulty < 2:
+		case hit("retry", cfg.PReuse/3) && len(m.Pkgs) >= 2 && faulty < 2:
 			// a retry on the same executor after a failure half-way: the files are there (run 0); in the first
 			// call a generator has nothing to say for package A (its file is stale) and fails in package B,
 			// which comes later; in the second call, on the same executor, it renders for A again and succeeds
@@ -491,7 +512,7 @@ func DrawHistory(r *Rng, cfg HistConfig) (*Scenario, *histWorld) {
 			run2.Sched = drawSched(r)
 			ops = append(ops, Op{Kind: "run", Run: run0}, Op{Kind: "run", Run: &run1}, Op{Kind: "run", Run: &run2})
 			faulty++
-		case r.P(cfg.PReuse):
+		case hit("reuse", cfg.PReuse):
 			// a tool that loads once and calls Execute twice: after a failure, with fewer generators, or
 			// with a generator that has nothing to say any more
 			run1 := w.drawRun(r, cfg)
@@ -542,7 +563,7 @@ func DrawHistory(r *Rng, cfg HistConfig) (*Scenario, *histWorld) {
 				run2.Args.Force = true // (the kept executor compares hashes from before the first call)
 			}
 			ops = append(ops, Op{Kind: "run", Run: run1}, Op{Kind: "run", Run: &run2})
-		case r.P(cfg.PProtect):
+		case hit("protect", cfg.PProtect):
 			pi := r.Intn(len(m.Pkgs))
 			var follow *Op
 			if cfg.PRetag > 0 && r.P(0.5) {
@@ -561,19 +582,19 @@ func DrawHistory(r *Rng, cfg HistConfig) (*Scenario, *histWorld) {
 			} else if r.P(0.7) {
 				ops = append(ops, Op{Kind: "touch", K: pi, Path: m.Pkgs[pi].Files[0].Name, Note: "after " + ops[len(ops)-1].Kind})
 			}
-		case r.P(cfg.PLinkOut):
+		case hit("linkout", cfg.PLinkOut):
 			ops = append(ops, Op{Kind: "linkout", K: r.Intn(len(m.Pkgs))})
 			if r.P(0.7) {
 				// and the package is edited, so that it is generated again
 				pi := ops[len(ops)-1].K
 				ops = append(ops, Op{Kind: "touch", K: pi, Path: m.Pkgs[pi].Files[0].Name, Note: "after linkout"})
 			}
-		case r.P(cfg.PUnhashable):
+		case hit("unhashable", cfg.PUnhashable):
 			pi := r.Intn(len(m.Pkgs))
 			p := w.pkgFile(pi, ".#doc.go")
 			planted[p] = true
 			ops = append(ops, Op{Kind: "unhashable", Path: p})
-		case r.P(cfg.PBreak):
+		case hit("break", cfg.PBreak):
 			ops = append(ops, Op{Kind: "break", Path: "go.mod", Content: "modul broken ][\n"})
 			broken = true
 		default:
@@ -711,6 +732,22 @@ func opKinds(ops []Op) string {
 }
 
 func runHistory(c *CheckCtx, i int, r *Rng, cfg HistConfig) error {
+	if cfg.Featured == "" {
+		// every second simulation features one of the motifs its configuration enables, in rotation
+		var enabled []string
+		for _, mo := range []struct {
+			name string
+			p    float64
+		}{{"fail-after-edit", cfg.PFailAfterEdit}, {"clock", cfg.PClock}, {"type-error", cfg.PTypeError}, {"retry", cfg.PReuse}, {"reuse", cfg.PReuse},
+			{"protect", cfg.PProtect}, {"linkout", cfg.PLinkOut}, {"stale", cfg.PStale}, {"sumops", cfg.PSumOps}, {"retag", cfg.PRetag}} {
+			if mo.p > 0 {
+				enabled = append(enabled, mo.name)
+			}
+		}
+		if len(enabled) > 0 && i%2 == 1 {
+			cfg.Featured = enabled[(i/2)%len(enabled)]
+		}
+	}
 	sc, w := DrawHistory(r, cfg)
 	sc.LinkedRoot = i%8 == 5
 	out, err := c.RunScenario(sc, i)
@@ -766,7 +803,7 @@ func SimC07(c *CheckCtx, i int, r *Rng) error {
 		c.Env.Stats.Add("probe/two-module-world", 1)
 	}
 	return runHistory(c, i, r, HistConfig{TwoModules: two, MinOps: 3, MaxOps: 7, PAll: 0.6, PForce: 0.3, PGlobals: 0.2, PSubsetGens: 0.5, PEdit: 0.15, PStale: 0.25,
-		PSumOps: 0.05, PBreak: 0.08, PGenFault: 0.12, PIOFault: 0.12, PKill: 0.1, PConverge: 0.2, PMute: 0.35, PDepOutside: 0.5, PReal: 0.1, PUniform: 0.3, PCancel: 0.05, PWarm: 0.1, PLinkOut: 0.1, PCwd: 0.2, PClock: 0.1, PProtect: 0.08, PReuse: 0.15})
+		PSumOps: 0.05, PBreak: 0.08, PGenFault: 0.12, PIOFault: 0.12, PKill: 0.1, PConverge: 0.2, PMute: 0.35, PDepOutside: 0.5, PReal: 0.1, PUniform: 0.3, PCancel: 0.05, PWarm: 0.1, PLinkOut: 0.1, PCwd: 0.2, PClock: 0.1, PProtect: 0.08, PReuse: 0.15, PFailAfterEdit: 0.08})
 }
 
 // SimC08: the gengo.sum cache against the reference model.
